@@ -1,63 +1,5 @@
 (* C03: the association state machine admits exactly the legal request/response sequences. *)
-From Dlms Require Import Base Sweep AssocModel.
-
-Inductive dir := DSend | DRecv.
-Definition mk (k : N) (a b : bool) (p : N) : ev := {| e_kind := k; a_flag := a; b_flag := b; proof := p |}.
-
-(* ---------- the client procedure (DESIGN.md appendix A) ---------- *)
-(* [may]: every edge a conforming client may take, with its post-state.  Kinds: 0 AARQ 1 AARE 2 RLRQ
-   3 RLRE 4 GET 5 GET-next 6 SET 7 ACTION 8 GET-resp 9 GET-resp-error 10 block 11 last-block
-   12 last-block-error 13 SET-resp 14 ACTION-resp 15 ACTION-resp-data 16 ACTION-resp-error
-   17 data-notification 18 exception-response *)
-Definition may (s : N) (d : dir) (e : ev) : option N :=
-  let k := e_kind e in
-  match d with
-  | DSend =>
-      if (s =? 0) && (k =? 0) then Some 1                                   (* AARQ only when unassociated *)
-      else if (s =? 2) && (k =? 4) then Some 5
-      else if (s =? 2) && (k =? 6) then Some 8
-      else if (s =? 2) && (k =? 7) then Some 4
-      else if (s =? 2) && (k =? 2) then Some 3                              (* release only when ready *)
-      else if (s =? 7) && (k =? 5) then Some 6                              (* block must be acknowledged *)
-      else if (s =? 9) && (k =? 7) then Some 10                             (* HLS reply *)
-      else None
-  | DRecv =>
-      if (s =? 1) && (k =? 1) then
-        Some (if a_flag e then 0 else if b_flag e then 9 else 2)            (* rejected / HLS / accepted *)
-      else if (s =? 1) && (k =? 18) then Some 0
-      else if (s =? 2) && (k =? 17) then Some 2                             (* unsolicited data-notification *)
-      else if (s =? 5) && ((k =? 8) || (k =? 9) || (k =? 18) || (k =? 11) || (k =? 12)) then Some 2
-      else if (s =? 5) && (k =? 10) then Some 7
-      else if (s =? 6) && (k =? 10) then Some 7
-      else if (s =? 6) && ((k =? 11) || (k =? 12) || (k =? 9) || (k =? 18)) then Some 2
-      else if (s =? 8) && ((k =? 13) || (k =? 18)) then Some 2
-      else if (s =? 4) && ((k =? 14) || (k =? 15) || (k =? 16) || (k =? 18)) then Some 2
-      else if (s =? 3) && (k =? 3) then Some 0                              (* completed release *)
-      else if (s =? 3) && (k =? 18) then Some 2
-      else if (s =? 10) && (k =? 15) && a_flag e && (proof e =? 0) then Some 2   (* meter proved key knowledge *)
-      else if (s =? 10) && (k =? 15) && a_flag e && (proof e =? 1) then Some 0
-      else if (s =? 10) && ((k =? 14) || (k =? 16)) then Some 0
-      else None
-  end.
-(* [must]: the edges the property names; all of [may] except the optional meter answers *)
-Definition optional_answer (s : N) (e : ev) : bool :=
-  let k := e_kind e in
-  ((s =? 5) && ((k =? 18) || (k =? 11) || (k =? 12))) || ((s =? 6) && ((k =? 9) || (k =? 18)))
-  || ((s =? 8) && (k =? 18)) || ((s =? 4) && (k =? 18)) || ((s =? 3) && (k =? 18)).
-Definition must (s : N) (d : dir) (e : ev) : option N :=
-  match d with DRecv => if optional_answer s e then None else may s d e | DSend => may s d e end.
-
-Definition step (pre : bool) (s : N) (d : dir) (e : ev) : res unit * N :=
-  match d with DSend => assoc_send pre s e | DRecv => assoc_recv pre s e end.
-Definition is_acse (d : dir) (k : N) : bool :=
-  match d with DSend => (k =? 0) || (k =? 2) | DRecv => (k =? 1) || (k =? 3) end.
-
-(* the event alphabet of the property: the client sends the 6 request kinds, the meter's 15 kinds arrive *)
-Definition in_alphabet (d : dir) (k : N) : bool :=
-  match d with
-  | DSend => (k =? 0) || (k =? 2) || (k =? 4) || (k =? 5) || (k =? 6) || (k =? 7)
-  | DRecv => (k =? 1) || (k =? 3) || ((8 <=? k) && (k <=? 20))
-  end.
+From Dlms Require Import Base Sweep AssocModel AssocSpec.
 
 (* ---------- complete enumeration: 13 states x 29 kinds x flags x 3 proofs x direction x config ---------- *)
 Definition chk_one (pre : bool) (s : N) (d : dir) (e : ev) : bool :=
